@@ -9,6 +9,11 @@ def verdict(run, rule, fn, construct, r, m):
                "decision table equals the reference on all %d joint rows "
                "(%d live paths, %d reference paths)"
                % (r["rows"], r["live_paths"], r["ref_paths"]), loc=loc)
+    elif r["verdict"] == "violation" and r.get("vanished"):
+        run.soft_error("%s: anchor vanished: %s no longer has the attribute(s)/"
+                       "method(s) %s that the reference of %s is written "
+                       "against (renamed or removed); no verdict"
+                       % (rule, fn.module.name, r["vanished"], fn.qualname))
     elif r["verdict"] == "violation":
         run.fail(rule, fn.qualname, construct,
                  "outcome differs from the reference: live %s, reference %s"
